@@ -5,7 +5,8 @@ LEVEL = "other"
 EXPLANATION = ("Per-solve freshness (new wrapper, rebinding of the tracking lists and of the objective leaf, regeneration of class and "
                "partition constraints before the first send), effect closure of the per-solve roots (every accumulation is reset there, keyed, "
                "under an idempotence guard, or an identifier counter), and memo discipline of the four eval accessors and of the solve root's exits. "
-               "Holds for every sequence of solves and edits because the rules bound what can survive from one solve to the next.")
+               "Holds for every sequence of solves and edits because the rules bound what can survive from one solve to the next."
+               ' Also: class constraints are regenerated unconditionally; no accessor memoises a solver-derived result; every registered leaf is re-assigned unconditionally after each successful solve.')
 TRUSTED = ["CPython ast", "call resolution and effect summaries of sa/effects.py"]
 ASSUMPTIONS = ["equality of returned numbers across solves is not decided (solver determinism)"]
 
